@@ -162,6 +162,12 @@ class ForNode(Node):
         yield Identifier(self.expression.identifier, token=self.expression.token)
         yield Identifier("forloop", token=self.token)
 
+    def unscoped_children(self) -> Iterable[Node]:
+        """Return those of this node's children that don't see its block scope."""
+        # The `else` block runs when there is nothing to bind the loop variable to.
+        if self.default:
+            yield self.default
+
 
 class ForTag(Tag):
     """The standard _for_ tag."""
